@@ -56,6 +56,24 @@ static void run(Ctx& c) {
     std::vector<Table> TS; std::vector<dd_edge> ES; std::vector<long> NS;
     for (int i = 0; i < 2; i++) { Table t = randomTable(r, w, fsib, alphaS); dd_edge e(SIB); buildChecked(w, SIB, fsib, t, e, "C13 sibling"); TS.push_back(t); ES.push_back(e); NS.push_back(long(e.getNodeCount())); }
     std::vector<dd_edge> ESc(ES);
+    // Half of the cases (where the sibling's kind can be reordered too and the known relation/VAR-swap class is not touched): both
+    // forests are first brought to the SAME non-default order, so that they share whatever the domain keeps per order; afterwards
+    // only F is reordered and the sibling must keep that order and its functions.
+    std::vector<int> sibOrder(size_t(n + 1), 0); for (int i = 1; i <= n; i++) sibOrder[size_t(i)] = i;
+    bool uniformAll = true; for (int v = 2; v <= n; v++) if (sh.sizes[size_t(v)] != sh.sizes[1]) uniformAll = false;
+    if (r.chance(1, 2) && (!rel || uniformAll)) {
+        std::vector<int> perm; for (int i = 1; i <= n; i++) perm.push_back(i); r.shuffle(perm);
+        std::vector<int> l2v(size_t(n + 1), 0); for (int i = 1; i <= n; i++) l2v[size_t(i)] = perm[size_t(i - 1)];
+        phase("shared-order:" + cfg);
+        try {
+            F->reorderVariables(l2v.data()); SIB->reorderVariables(l2v.data());
+            sibOrder = l2v; c.count("cases_where_both_forests_first_share_a_non_default_order");
+            for (size_t i = 0; i < E.size(); i++) expectTable(w, E[i], T[i], tol, "C13:" + cfg + ":held-edge-changed", "after bringing both forests to a common order");
+            for (size_t i = 0; i < ES.size(); i++) expectTable(w, ES[i], TS[i], tolFor(fsib), "C13:" + cfg + ":held-edge-changed", "sibling after bringing both forests to a common order");
+            NS.clear(); for (auto& e : ES) NS.push_back(long(e.getNodeCount()));
+            ESc = ES;
+        } catch (MEDDLY::error& e) { if (e.getCode() != error::NOT_IMPLEMENTED) throw; c.count("reordering_not_offered"); MEDDLY::cleanup(); throw Unsupported("reorderVariables not implemented for " + cfg + " or sibling"); }
+    }
     uint64_t sig = hashstr(cfg.c_str()) ^ hashstr(sh.str().c_str());
     for (auto& t : T) sig = sig * 1000003ULL ^ tableHash(t);
     bool nontriv = false;
@@ -109,7 +127,7 @@ static void run(Ctx& c) {
         if (E.size() >= 2) { int op = fs.isBool() ? B_INTERSECTION : (fs.isEVP() ? B_MAXIMUM : B_MINIMUM); dd_edge res(F); apply(binFactory(op), E[0], E[1], res); BinModel m = modelBin(op, T[0], T[1], fs.isReal());
             expectTable(w, res, m.out, tol, kb + ":operation-after-reorder:wrong-value", ctx); }
         // the sibling forest is untouched
-        for (int i = 1; i <= n; i++) if (SIB->getVarByLevel(i) != i) throw Violation(kb + ":sibling-order-changed", ctx + ": sibling forest's level " + tos(i) + " now holds variable " + tos(SIB->getVarByLevel(i)));
+        for (int i = 1; i <= n; i++) if (SIB->getVarByLevel(i) != sibOrder[size_t(i)]) throw Violation(kb + ":sibling-order-changed", ctx + ": sibling forest's level " + tos(i) + " now holds variable " + tos(SIB->getVarByLevel(i)) + ", before " + tos(sibOrder[size_t(i)]));
         for (size_t i = 0; i < ES.size(); i++) {
             if (ES[i] != ESc[i] || long(ES[i].getNodeCount()) != NS[i]) throw Violation(kb + ":sibling-changed", ctx + ": sibling edge " + tos(i) + " changed");
             expectTable(w, ES[i], TS[i], tolFor(fsib), kb + ":sibling-changed", ctx);
